@@ -3,3 +3,8 @@ import WS.Base.Bytes
 import WS.Gen.Tables
 import WS.Props.C06
 import WS.Props.C01
+import WS.Props.C02
+import WS.Props.C05
+import WS.Props.C04
+import WS.Props.C07
+import WS.Props.C03
